@@ -84,11 +84,21 @@ def iso(t: int) -> str:
 # ------------------------------------------------------------------------------------ writer
 
 
-def write_global_config(d: Path, lazy: bool = False, events: bool = True, instructions: bool = False):
+ALL_REPORT_TYPES = [
+    "instruction", "station_state", "vehicle_state", "driver_state", "add_request_event", "cancel_request_event", "pickup_request_event",
+    "dropoff_request_event", "vehicle_charge_event", "vehicle_move_event", "station_load_event", "refuel_search_event", "driver_schedule_event",
+]
+
+
+def write_global_config(d: Path, lazy: bool = False, events: bool = True, instructions: bool = False, log_sim_config=None, stats: bool = True):
     (d / "out").mkdir(exist_ok=True)
-    (d / ".hive.yaml").write_text(
-        GLOBAL_YAML.format(out=str(d / "out"), lazy=str(bool(lazy)), events=str(bool(events)), instructions=str(bool(instructions)))
-    )
+    txt = GLOBAL_YAML.format(out=str(d / "out"), lazy=str(bool(lazy)), events=str(bool(events)), instructions=str(bool(instructions)))
+    if not stats:
+        txt = txt.replace("log_stats: True", "log_stats: False")
+    if log_sim_config is not None:
+        # the operator logs only some kinds of records (documented key log_sim_config)
+        txt += "log_sim_config:\n" + "".join(f"- '{x}'\n" for x in log_sim_config)
+    (d / ".hive.yaml").write_text(txt)
 
 
 def write_scenario(spec: Dict[str, Any], d: Path) -> Path:
@@ -99,7 +109,7 @@ def write_scenario(spec: Dict[str, Any], d: Path) -> Path:
         return _write_shipped(spec, d)
     sim = spec["sim"]
     glob = spec.get("global", {})
-    write_global_config(d, lazy=glob.get("lazy", False), events=glob.get("log_events", True), instructions=glob.get("log_instructions", False))
+    write_global_config(d, lazy=glob.get("lazy", False), events=glob.get("log_events", True), instructions=glob.get("log_instructions", False), log_sim_config=glob.get("log_sim_config"), stats=glob.get("log_stats", True))
     as_iso = sim.get("time_format", "int") == "iso"
 
     def tfmt(t: int):
